@@ -50,6 +50,7 @@ func init() {
 		Trusted:     []string{"go/types", "golang.org/x/tools/go/ssa v0.29.0"},
 		Rules: func(c *Ctx) {
 			ruleC15ScanFilter(c)
+			ruleChildUpdateHandled(c, "C15.CHILDUPDATE")
 			ruleValidIds(c, "C15.VALID")
 			ruleOwnPresence(c, "C15.PRESENT")
 			ruleC15Inherit(c)
